@@ -17,7 +17,8 @@ reg(Prop(
          'Failing streams: streambufs that end, throw (badbit) or refuse to seek after k characters. distinct = hash of the text.'
          ' Devices that can only be positioned absolutely (seekpos works, relative seekoff is refused) for both character types, and wide file streams reading UTF-8 (C.utf8 facet and std::codecvt_utf8) with 1- to 4-byte characters: same interleavings, offsets judged for consistency only (they are positions in the file).'
          ' Streams imbued with a ctype facet that widens newline to another character occurring in the text; char16_t / char32_t streams (no ctype facet exists).'
-         ' phrase_parse_stream with a skipper that reads the stream over devices failing at the first read or inside leading white space: a failure result, never an exception of the stream layer.',
+         ' phrase_parse_stream with a skipper that reads the stream over devices failing at the first read or inside leading white space: a failure result, never an exception of the stream layer.'
+         ' A device whose seek fails once for a good position: set_position reports it, and after the caller cleared the state the reported offset / line / column are those of the place the stream is at; a later restore succeeds.',
     assumptions=COMMON_ASSUMPTIONS + [
         'set_position is only called with positions previously returned by get_position on the same stream (documented precondition)',
         'failing streams are judged with the caller\'s stream exceptions() left at the default (off)'],
